@@ -104,9 +104,10 @@ PLANS = {
  'C19': {
   'level': 'exploration',
   'steps': [e3('gcm'), e3('xts', 8, 16), e3('cbc', 4, 8), e3('keyexp', 2, 4), e2('mh1', 8, 16), e2('mh256', 8, 16), e2('mur', 8, 16), e2('roll', 16, 16), e2('gcms', 16, 16),
-            e1('seg', 112), e1('explore', 112, ['--d4=1', '--d8=1', '--d16=1']), e1('explore', 112, ['--entry=public', '--d4=1'])],
+            e1('seg', 112), e1('explore', 112, ['--d4=1', '--d8=1', '--d16=1']), e1('explore', 112, ['--entry=public', '--d4=1']),
+            {'engine': 'e4_api', 'variant': 'V', 'args': ['--mode=lattice'], 'shards': 8}, {'engine': 'e6_dispatch', 'variant': 'V', 'args': [], 'shards': 16}],
   'eval_stats': ['library_calls'], 'distinct_key': 'functions_called',
-  'rule': "every library call of every engine goes through an assembly trampoline that loads sentinels into rbx, rbp, r12-r15, records rsp, MXCSR, x87 CW, clears DF, lays a 256-byte canary zone above the outgoing stack arguments, poisons caller-saved registers/flags, and after return compares all of it bit for bit (MXCSR: control bits only); the calls are those of the functional sweeps (every length class / tail / main loop / lanes full or not / flush with 0..L live lanes / rejected submits), on public, legacy and family entry points; distinct = distinct entry points called",
+  'rule': "every library call of every engine goes through an assembly trampoline that loads sentinels into rbx, rbp, r12-r15, records rsp, MXCSR, x87 CW, clears DF, lays a 256-byte canary zone above the outgoing stack arguments, poisons caller-saved registers/flags, and after return compares all of it bit for bit (MXCSR: control bits only); the calls are those of the functional sweeps (every length class / tail / main loop / lanes full or not / flush with 0..L live lanes / rejected submits), on public, legacy and family entry points, the argument-lattice error/early returns of E4 and all 64 dispatch resolvers (E6, every CPU configuration); distinct = distinct entry points called",
   'bound': {'quick': 'quick grids of E1/E2/E3', 'thorough': 'thorough grids of E1/E2/E3'},
   'deadline': {'quick': 240, 'thorough': 2700}, 'assumptions': A_COMMON + ["internal kernels with private calling conventions (e.g. sha256_mb_x8_avx2, sha1_ni_x2) are not entry points and are excluded"],
  },
@@ -144,15 +145,16 @@ PLANS = {
   'level': 'exploration',
   'steps': [{'engine': 'e4_api', 'variant': 'V', 'args': ['--mode=lattice'], 'shards': 8}],
   'eval_stats': ['lattice_cases', 'twin_pairs'], 'distinct_key': 'case',
-  'rule': "argument-lattice enumeration over the 70 catalogued isal_ entry points (isal_crypto_get_version* take no checked arguments): all 2^k subsets of the k pointer arguments set to NULL x (all scalars valid, then each boundary value of each scalar in turn: lengths 0/1/15/16/17/MAX+1, tag lengths 0/4/8/12/15/16/17, window 0/1/48/49/2^32-1, flags 0..4/0x10/0xFF, XTS lengths 0/1/15/16/17/2^24+1/2^40); expectation from a transcription of the header documentation, three-valued (must-succeed / must-fail / contract-silent); in must-fail cases every non-NULL pointer argument is aimed at a PROT_NONE region so that any dereference before the refusal faults (a submit with invalid flags is refused through its context, which is therefore real); stateful entries are prepared with valid internal calls; plus legacy/isal_ twin pairs on identical valid inputs with byte-wise comparison of all outputs",
+  'rule': "argument-lattice enumeration over the 70 catalogued isal_ entry points (isal_crypto_get_version* take no checked arguments): all 2^k subsets of the k pointer arguments set to NULL x (all scalars valid, then each boundary value of each scalar in turn: lengths 0/1/15/16/17/MAX+1, tag lengths 0/4/8/12/15/16/17, window 0/1/48/49/2^32-1, flags 0..4/0x10/0xFF, XTS lengths 0/1/15/16/17/2^24-1/2^24 (accepted, compared with the legacy twin)/2^24+1/2^40); expectation from a transcription of the header documentation, three-valued (must-succeed / must-fail / contract-silent); in must-fail cases every non-NULL pointer argument is aimed at a PROT_NONE region so that any dereference before the refusal faults (a submit with invalid flags is refused through its context, which is therefore real); stateful entries are prepared with valid internal calls; plus legacy/isal_ twin pairs on identical valid inputs with byte-wise comparison of all outputs",
   'bound': {'quick': 'full lattice (exhaustive), 6 length classes for twins', 'thorough': 'same'},
   'deadline': {'quick': 120, 'thorough': 600}, 'assumptions': A_COMMON + ["the documented domain is transcribed by hand from include/*.h; where the headers are silent (e.g. NULL data pointer with length 0, tag length 4) either outcome is accepted"],
  },
  'C13': {
   'level': 'model_checking',
-  'steps': [{'engine': 'e4_api', 'variant': 'VF', 'args': ['--mode=fips'], 'shards': 16}],
+  'steps': [{'engine': 'e4_api', 'variant': 'VF', 'args': ['--mode=fips'], 'shards': 16},
+            {'engine': 'e4_api', 'variant': 'VF', 'args': ['--mode=latch', '--latch-max-threads=2'], 'shards': 9}],
   'eval_stats': ['transitions'], 'distinct_key': 'histories', 'state_stats': ['states'], 'transition_stats': ['transitions'],
-  'rule': "FIPS_MODE build with the self-test bodies redirected (objcopy --redefine-sym on a private copy of self_tests.o) to shims that count entries and return scripted outcomes whose failure values are calibrated from the genuine _aes_self_tests/_sha_self_tests run over a deliberately mis-bound primitive; explored: initial latch state {not run, passed, failed via asm_set_self_tests_status(1), failed via AES outcome, failed via SHA outcome} x outcome sequences of length 2 over {pass, AES fails, SHA fails} x first call e1 in all 70 catalogued entry points with valid arguments x second call e2 (quick: every 6th, rotating; thorough: all 70); oracle: 3-state reference machine - approved entry refused with ISAL_CRYPTO_ERR_SELF_TEST and outputs bytewise untouched whenever the self-tests have failed or fail now, self-tests entered exactly once by the first approved call and never again, 0 after a pass, non-approved entries always ISAL_CRYPTO_ERR_FIPS_INVALID_ALGO, all eight XTS entries refuse key1 == key2 (raw and expanded) in every latch state",
+  'rule': "FIPS_MODE build with the self-test bodies redirected (objcopy --redefine-sym on a private copy of self_tests.o) to shims that count entries and return scripted outcomes whose failure values are calibrated from the genuine _aes_self_tests/_sha_self_tests run over a deliberately mis-bound primitive; explored: initial latch state {not run, passed, failed via asm_set_self_tests_status(1), failed via AES outcome, failed via SHA outcome} x outcome sequences of length 2 over {pass, AES fails, SHA fails} x first call e1 in all 70 catalogued entry points with valid arguments x second call e2 (quick: every 6th, rotating; thorough: all 70); oracle: 3-state reference machine - approved entry refused with ISAL_CRYPTO_ERR_SELF_TEST and outputs bytewise untouched whenever the self-tests have failed or fail now, self-tests entered exactly once by the first approved call and never again, 0 after a pass, non-approved entries always ISAL_CRYPTO_ERR_FIPS_INVALID_ALGO, all eight XTS entries refuse key1 == key2 (raw and expanded) in every latch state; plus the two-thread interleaving exploration of C17 (a caller that waits for another thread's failing self-tests must be refused as well)",
   'bound': {'quick': 'two-step histories with a rotating 1/6 subset of second calls', 'thorough': 'all two-step histories'},
   'deadline': {'quick': 200, 'thorough': 1500}, 'assumptions': A_COMMON + ["the self-test bodies are replaced by shims (what is verified is the latch and the gates, not the known-answer tests themselves)"],
  },
